@@ -320,6 +320,15 @@ fn gen_scenario(kind: Kind, w: &mut W) -> Scenario {
         }
     }
     real.resize(clients.len(), None);
+    // C18: in one world of four the listener fails transiently (ECONNABORTED-style: one `accept`
+    // reports an error, the listener itself is fine) once the service has handled k calls, at one
+    // to three such moments. A server may end there - `Server::run` returns the error - or carry on;
+    // the fairness monitor judges whatever service order was recorded.
+    if kind == Kind::C18 && t.draw(4) == 3 {
+        let mut at: Vec<u64> = (0..1 + t.draw(3)).map(|_| 1 + t.draw(40) as u64).collect();
+        at.sort();
+        w.listener.accept_fail_at = at;
+    }
     // C10: in one world of three, a stream's later items are triggered by another client's calls
     // having been answered (a subscriber of a notified state and the client that sets it)
     let mut stream_gate = None;
@@ -645,7 +654,13 @@ impl Prop for ServerProp {
         }
 
         // ------------------------------------------------------------------ common oracle
-        if run.server_finished {
+        // A listener failure may end the server (`Server::run` returns the error). Then nothing more
+        // is owed to anybody, but what was delivered up to that point must still be right.
+        let ended_by_accept_error = run.server_finished && world.borrow().listener.accept_failures > 0;
+        if ended_by_accept_error {
+            world.borrow_mut().stat("server_ended_by_listener_error");
+        }
+        if run.server_finished && !ended_by_accept_error {
             return Err((format!("{id}/server-exited"), "Server::run returned although no listener error was injected".into()));
         }
         {
@@ -673,7 +688,15 @@ impl Prop for ServerProp {
             }
             let (reference, before) = reference_output(spec.cid, &spec.calls);
             let handled: Vec<u32> = handled_by_cid.get(&spec.cid).cloned().unwrap_or_default();
-            if spec.faults.is_empty() {
+            if spec.faults.is_empty() && ended_by_accept_error {
+                let n = frames.len().min(reference.len());
+                if frames.len() > reference.len() || frames[..n] != reference[..n] {
+                    return Err((format!("{id}/wrong-reply-or-order"), format!("client {} (server ended by a listener error): received {frames:?}, not a prefix of the reference {reference:?}", spec.cid)));
+                }
+                if handled != (0..handled.len() as u32).collect::<Vec<u32>>() {
+                    return Err((format!("{id}/call-not-handled-exactly-once-in-order"), format!("client {}: service saw calls {handled:?}", spec.cid)));
+                }
+            } else if spec.faults.is_empty() {
                 if frames != reference {
                     // classify
                     let answered_oneway: Vec<Value> = {
